@@ -177,6 +177,7 @@ int main(int argc, char **argv) {
             set_case(k, "scale font=%s enc=%d dir=%d ppm=%.9g fmode=%d text=%s", fontpath.c_str(), 1 << c.enc, c.dir, c.ppm, c.fmode, cps_str(c.text, 20).c_str());
             gr_font *font = LIB(gr_make_font(c.ppm, f));
             g_dec[0].clear(); g_dec[1].clear();
+            const long viol_before_case = g_viol;
             gr_segment *A = shape(f, nullptr, c), *B = shape(f, font, c);
             const double fgap = flipped_gap();
             st.add("pairs");
@@ -243,6 +244,46 @@ int main(int argc, char **argv) {
                     if (fgap <= tol) st.add("pairs_with_a_flipped_finalise_decision");
                     st.add("finalise_decisions_compared", double(g_dec[1].size()));
                     if (ns >= 2 && std::fabs(double(s) - 1.0) > 1e-3 && gr_seg_advance_X(A) != 0) st.add("nontrivial");
+                    // ---- justification space is part of the statement: cut both segments at the same slot, justify every line to the same
+                    // width (design units for A, x s for B) and compare again.  justify() truncates each glyph's share to whole steps of
+                    // the font's step attribute, so one rounding flip moves a glyph by a step: this comparison is deliberately coarse
+                    // (a few design units per slot) - it is there for scale factors missing or doubled in the justification branch.
+                    if (g_viol == viol_before_case && ns >= 3 && r.chance(0.35) && gr_seg_advance_X(A) > 0) {
+                        std::vector<gr_slot *> oa, ob;
+                        for (const gr_slot *p = gr_seg_first_slot(A); p; p = gr_slot_next_in_segment(p)) oa.push_back(const_cast<gr_slot *>(p));
+                        for (const gr_slot *p = gr_seg_first_slot(B); p; p = gr_slot_next_in_segment(p)) ob.push_back(const_cast<gr_slot *>(p));
+                        size_t cut = r.chance(0.7) ? 1 + r.below(uint32_t(ns - 1)) : 0;
+                        // cut only between clusters (a base on both sides keeps each line a set of whole clusters)
+                        while (cut && cut < ns && gr_slot_attached_to(oa[cut])) ++cut;
+                        if (cut >= ns) cut = 0;
+                        if (cut) { LIBV(gr_slot_linebreak_before(oa[cut])); LIBV(gr_slot_linebreak_before(ob[cut])); }
+                        const double wf = 0.7 + 0.9 * r.unit();
+                        const int flags = int(r.below(4));
+                        double worstj = 0;
+                        for (int line = 0; line < (cut ? 2 : 1); ++line) {
+                            size_t b0 = line ? cut : 0, b1 = line || !cut ? ns : cut;
+                            double nat = 0;
+                            for (size_t i = b0; i < b1; ++i) if (!gr_slot_attached_to(oa[i])) nat += gr_slot_advance_X(oa[i], f, nullptr);
+                            const double W = std::floor(nat * wf) + 0.5;
+                            float ra = LIB(gr_seg_justify(A, oa[b0], nullptr, W, gr_justFlags(flags), nullptr, nullptr));
+                            float rb = LIB(gr_seg_justify(B, ob[b0], font, W * double(s), gr_justFlags(flags), nullptr, nullptr));
+                            const double tolj = tol + double(s) * 2.0 * double(b1 - b0 + 2);
+                            auto cj = [&](const char *what, size_t idx, double av, double bv) {
+                                double err = std::fabs(bv - double(s) * av);
+                                worstj = std::max(worstj, err / tolj);
+                                if (err > tolj) V(fmt("scale:justified:%s", what).c_str(), "line %d (slots %zu..%zu, width %.1f design units, flags %d), slot %zu: design %.9g x %.9g = %.9g but pixel value %.9g", line, b0, b1, W, flags, idx, av, double(s), double(s) * av, bv);
+                            };
+                            cj("width", b0, ra, rb);
+                            for (size_t i = b0; i < b1; ++i) {
+                                cj("origin-x", i, gr_slot_origin_X(oa[i]), gr_slot_origin_X(ob[i]));
+                                cj("origin-y", i, gr_slot_origin_Y(oa[i]), gr_slot_origin_Y(ob[i]));
+                                cj("advance-x", i, gr_slot_advance_X(oa[i], f, nullptr), gr_slot_advance_X(ob[i], f, font));
+                            }
+                            st.add("justified_lines_compared");
+                            if (std::fabs(double(ra) - nat) > 1.0) st.add("justified_lines_whose_width_changed");
+                        }
+                        st.mx("max_justified_error_over_tolerance_x1e6", worstj * 1e6);
+                    }
                 }
             }
             if (A) LIBV(gr_seg_destroy(A));
